@@ -118,13 +118,13 @@ func parseV1Header(buf []byte) (*Header, error) {
 			}
 			dest.IP = ip
 		case 2:
-			port, err := strconv.Atoi(string(buf))
+			port, err := parsePort(buf)
 			if err != nil {
 				return fmt.Errorf("invalid port '%s' at pos '%d'", buf, pos)
 			}
 			src.Port = port
 		case 3:
-			port, err := strconv.Atoi(string(buf))
+			port, err := parsePort(buf)
 			if err != nil {
 				return fmt.Errorf("invalid port '%s' at pos '%d'", buf, pos)
 			}
@@ -140,6 +140,19 @@ func parseV1Header(buf []byte) (*Header, error) {
 		return nil, fmt.Errorf("address line '%s' corrupted", buf[11:])
 	}
 	return &Header{IsLocal: false, Version: 1, Source: &src, Destination: &dest}, nil
+}
+
+// parsePort parses a TCP port of the v1 header: a decimal integer in the range [0..65535],
+// without a sign and without leading zeros.
+func parsePort(buf []byte) (int, error) {
+	if len(buf) > 1 && buf[0] == '0' {
+		return 0, errors.New("leading zero")
+	}
+	port, err := strconv.ParseUint(string(buf), 10, 16)
+	if err != nil {
+		return 0, err
+	}
+	return int(port), nil
 }
 
 // split takes a given byte buffer and splits on a single space ' ' calling the passed `fn` for each
